@@ -82,7 +82,7 @@ class AV:
     """tags: what this value *is*; g / r: what its graph / registry field is (Circuit objects
     built with graph=/blackboxes=); elems: what it *contains* (container elements, registry values)."""
 
-    __slots__ = ("tags", "g", "r", "elems", "kind", "fields", "cls", "fn")
+    __slots__ = ("tags", "g", "r", "elems", "kind", "fields", "cls", "fn", "pos")
 
     def __init__(self, tags=frozenset(), kind=None, g=frozenset(), r=frozenset(), elems=frozenset(), fields=None, cls=None, fn=frozenset()):
         # fn: the callables this value may be or may hold (a repository function, a lambda, a functools.partial, an
@@ -97,10 +97,20 @@ class AV:
         # small state object); `fields` maps attribute names to abstract values (field-sensitive), `cls` = (file, class)
         self.fields = fields
         self.cls = cls
+        # the result of a function that returns `(x, y)` on every path: the abstract values position by position, so that
+        # `a, b = f(...)` gives each name its own (None: not known by position)
+        self.pos = None
 
     def join(self, other):
         if other is None:
             return self
+        if self.pos is not None and other.pos is not None and len(self.pos) == len(other.pos) and self.kind != "record" and other.kind != "record":
+            out = self._join(other)
+            out.pos = [a.join(b) for a, b in zip(self.pos, other.pos)]
+            return out
+        return self._join(other)
+
+    def _join(self, other):
         if self.kind == "record" or other.kind == "record":
             if self.kind == other.kind and self.cls == other.cls:
                 if self.fields is other.fields:
@@ -219,9 +229,11 @@ class Summary:
         self.unknown_calls = []
         self.returns_seen = 0
         self.ret_fn = frozenset()  # callables the returned value may be (descriptors of AV.fn: valid across functions)
+        self.ret_pos = None  # [(ret-set, kind), ...] per position when every `return` gives a tuple literal of one length
 
     def key(self):
-        return (frozenset(self.mut), frozenset(self.ret), self.ret_kind, frozenset(self.stores), self.ret_fn)
+        return (frozenset(self.mut), frozenset(self.ret), self.ret_kind, frozenset(self.stores), self.ret_fn,
+                None if self.ret_pos is None else tuple((frozenset(r_), k_) for r_, k_ in self.ret_pos))
 
 
 class Resolver:
@@ -542,6 +554,7 @@ class FuncAnalysis:
         self.s = Summary(fi)
         self.params = self.s.params
         self.ret_av = None
+        self.ret_pos_avs = None  # per-position values of `return (x, y)`; False once a return is not such a tuple
         self.fn_vars = {}  # local name -> [(file, qual)] of the repository functions it may denote
         self.lambda_vars = {}  # local name -> [ast.Lambda] it may denote (columns of module-level rule tables, local lambdas)
         self.accessor_vars = {}  # local name -> ('method' | 'attr', name) for methodcaller / attrgetter objects
@@ -603,6 +616,8 @@ class FuncAnalysis:
                     self.s.ret.add((slot, p, part))
             self.s.ret_kind = self.ret_av.kind
             self.s.ret_fn = frozenset(d for d in self.ret_av.fn if d[0] in ("func", "lambda", "partial", "hclass", "accessor"))
+        if self.ret_pos_avs:
+            self.s.ret_pos = [({(slot, p, part) for slot in ("tags", "g", "r", "elems") for (p, part) in getattr(av_, slot)}, av_.kind) for av_ in self.ret_pos_avs]
         return self.s
 
     # ---- environment helpers ------------------------------------------
@@ -708,6 +723,17 @@ class FuncAnalysis:
     def st_Return(self, st):
         self.s.returns_seen += 1
         self._ret(self.ev(st.value) if st.value is not None else FRESH)
+        if not self.inline_stack:
+            if isinstance(st.value, ast.Tuple) and not any(isinstance(e, ast.Starred) for e in st.value.elts) and self.ret_pos_avs is not False:
+                avs = [flatten_record(self.ev(e)) for e in st.value.elts]
+                if self.ret_pos_avs is None:
+                    self.ret_pos_avs = avs
+                elif len(self.ret_pos_avs) == len(avs):
+                    self.ret_pos_avs = [a.join(b) for a, b in zip(self.ret_pos_avs, avs)]
+                else:
+                    self.ret_pos_avs = False
+            else:
+                self.ret_pos_avs = False
 
     def st_Expr(self, st):
         v = st.value
@@ -724,6 +750,10 @@ class FuncAnalysis:
         elif isinstance(target, (ast.Tuple, ast.List)):
             # unpacking a pair such as (node, attribute dict) from G.nodes(data=True) / .items(): the abstract value of the pair
             # "is or holds" the live dictionary, so each unpacked name may be it
+            if av.pos is not None and len(av.pos) == len(target.elts) and not any(isinstance(e, ast.Starred) for e in target.elts):
+                for e, v in zip(target.elts, av.pos):
+                    self.bind(e, v)
+                return
             held = AV({t for t in flatten_record(av).tags if t[1] == "attrdict"})
             for e in target.elts:
                 if isinstance(e, ast.Starred):
@@ -1915,6 +1945,30 @@ class FuncAnalysis:
                                 node = k.value
                 if node is not None:
                     self.store_into(node, slot, carried)
+        def from_ret(ret_set, kind_):
+            tags, g, r, elems = set(), set(), set(), set()
+            for (slot, p, part) in ret_set:
+                if p.startswith("^") or p not in actual:
+                    continue
+                pr = project(actual[p], part)
+                if slot == "tags":
+                    tags |= pr
+                    if part == "self":
+                        g |= actual[p].g
+                        r |= actual[p].r
+                        elems |= actual[p].elems
+                    elif part == "registry":
+                        elems |= {(q, "blackbox") for (q, _) in pr} | actual[p].elems
+                elif slot == "g":
+                    g |= pr
+                elif slot == "r":
+                    r |= pr
+                else:
+                    elems |= pr
+                    if part == "self":
+                        elems |= flat(actual[p])
+            return AV(tags, kind_, g, r, elems)
+
         tags, g, r, elems = set(), set(), set(), set()
         for (slot, p, part) in summ.ret:
             if p.startswith("^") or p not in actual:
@@ -1938,7 +1992,10 @@ class FuncAnalysis:
                     elems |= flat(actual[p])
         # callables handed in (alone or inside a table) may come back as the result (`_lookup(table, key)`): the result carries them
         fn = (frozenset().union(*[a_.fn for a_ in actual.values()]) if actual else frozenset()) | summ.ret_fn
-        return AV(tags, summ.ret_kind, g, r, elems, fn=fn)
+        out = AV(tags, summ.ret_kind, g, r, elems, fn=fn)
+        if summ.ret_pos is not None:
+            out.pos = [from_ret(r_, k_).with_fn(fn) for r_, k_ in summ.ret_pos]
+        return out
 
 
 def func_params_lambda(n):
